@@ -831,6 +831,11 @@ let run (lineno : int) (lbc : str -> n list) ofit (args : string array) (impl : 
              if refind then say "C14" (if a = b then "ok" else "FAIL")
                  (if a = b then "theorem-instance" else "refind_b holds for this text, so idempotence is a theorem of the model, but the implementation's second fill differs")
              else if not applies then say "C14" "skip" "outside the stated option combinations"
+             else if a = b && (match o.o_alg with OptimalFit _ -> refind_opt_b cw alnum lbc custom3 o t | FirstFit -> false) then
+               (* hypothesis of C14_optimal_fit_any_separator holds for this text: an instance of
+                  the theorem for the reference oracle (the implementation's oracle is smawk, which
+                  may break cost ties differently, so the verdict itself is the comparison) *)
+               say "C14" "ok" "reference-oracle-instance"
              else if a = b then say "C14" "ok" ""
              else if not (List.for_all (additive lbc o) (split_le o.o_le t)) then say "C14" "known" "CutInsideEscape"
              else say "C14" "FAIL" "fill is not idempotent"
